@@ -162,9 +162,6 @@ func (g *gen) strBody(q byte, n int) string {
 			continue
 		}
 		if !g.known {
-			if (prevDollar) && (p[0] == '{' || strings.HasPrefix(p, "\\{") || strings.HasPrefix(p, "\\x7B") || strings.HasPrefix(p, "\\u007b")) {
-				continue
-			}
 			if prevLt && (p[0] == '/' || strings.HasPrefix(p, "\\/")) {
 				continue
 			}
@@ -177,8 +174,8 @@ func (g *gen) strBody(q byte, n int) string {
 		if q == '`' && prevDollar && p[0] == '{' {
 			continue
 		}
-		if prevNul && isDigit(p[0]) {
-			continue
+		if prevNul && isDigit(p[0]) && !legacyOK {
+			continue // \0 followed by a digit is valid only as a legacy octal form (K122 / N09 shapes are repaired)
 		}
 		b.WriteString(p)
 		prevDollar, prevLt, prevNul = dollar, lt, nul
@@ -187,9 +184,6 @@ func (g *gen) strBody(q byte, n int) string {
 		}
 	}
 	s := b.String()
-	if prevDollar && !g.known {
-		s += "z" // a following "+'{...'" would be merged into "${" (K09); a NUL escape before "+'1..'" (N09) is repaired
-	}
 	if q == '`' && strings.HasSuffix(s, "$") {
 		// harmless, but keep things simple
 		s += " "
